@@ -12,6 +12,7 @@ var commands = map[string]func([]string) int{}
 func main() {
 	commands["conn"] = cmdConn
 	commands["service"] = cmdService
+	commands["race"] = cmdRace
 	if len(os.Args) < 2 {
 		fmt.Fprintln(os.Stderr, "usage: vdriver <command> [flags]")
 		os.Exit(2)
